@@ -38,6 +38,7 @@ mod compaction;
 mod sync_exchange;
 mod gossip_loop;
 mod manifest_race;
+mod exec_inline;
 use std::panic;
 
 pub struct Found {
@@ -113,6 +114,7 @@ fn main() {
         "sync_exchange" => sync_exchange::search(&pid, &oid, seed),
         "gossip_loop" => gossip_loop::search(&pid, &oid, seed),
         "manifest_race" => manifest_race::search(&pid, &oid, seed),
+        "exec_inline" => exec_inline::search(&pid, &oid, seed),
         _ => None,
     };
     match res {
